@@ -1197,3 +1197,62 @@ Section Early.
     rewrite !alias_view_kept by assumption. reflexivity.
   Qed.
 End Early.
+
+(* ------------------------------------------------------------------ Part 10: the outcome of a guarded modification on
+   which every loop completes, in closed form (used by the C14 / C05 corollaries) *)
+Section LateResult.
+  Variable burst : N -> N -> N -> N.
+
+  Lemma mod_late_result a c seid cpf cp cf cq up uf uq rp rf rq s0 w6 :
+    find_session seid (c_sessions c) = Some s0 ->
+    mod_loops a c s0 seid cp cf cq up uf uq = (w6, 0%nat) ->
+    late_ok a c seid s0 w6 cp cf cq up uf uq rp rf rq = true ->
+    exists wp3 g3 dp wf3 df wq3 dq,
+      mod_remove_p rp (w_p w6) (a_teids a) [] = (wp3, g3, Some dp) /\
+      mod_remove_f rf (w_f w6) [] = (wf3, Some df) /\
+      mod_remove_q rq (w_q w6) [] = (wq3, Some dq) /\
+      handle_mod burst a c seid cpf cp cf cq up uf uq rp rf rq =
+      Done (Agent (a_cfg a) (w_pool w6) g3 (a_gauge a)
+                  (apply_cmds (del_cmds dp df dq)
+                     (apply_cmds (add_cmds burst (lookup_pdrs (w_addp w6) (view (w_p w6))) (w_addf w6) (w_addq w6)) (a_tables a))),
+            Conn (c_remote c) (c_pfds c) (replace_session (Sess (s_lseid s0) (new_rseid cpf s0) wp3 wf3 wq3) (c_sessions c)) (c_seq c),
+            Out (Some (RMod (new_rseid cpf s0) CAUSE_OK))
+                (add_cmds burst (lookup_pdrs (w_addp w6) (view (w_p w6))) (w_addf w6) (w_addq w6) ++ del_cmds dp df dq)
+                (if g_end_marker (a_cfg a) then w_marks w6 else []) false).
+  Proof.
+    intros Hf HL HG. unfold late_ok in HG.
+    apply andb_true_iff in HG; destruct HG as [HG G12]. apply andb_true_iff in HG; destruct HG as [HG G11].
+    apply andb_true_iff in HG; destruct HG as [HG G10]. apply andb_true_iff in HG; destruct HG as [HG G9].
+    apply andb_true_iff in HG; destruct HG as [HG G8]. apply andb_true_iff in HG; destruct HG as [HG G7].
+    destruct (mod_loops_done _ _ _ _ _ _ _ _ _ _ _ HL) as (w1 & w2 & w3 & w4 & w5 & H1 & H2 & H3 & H4 & H5 & H6).
+    destruct (mod_remove_p rp (w_p w6) (a_teids a) []) as [[wp3 g3] [dp|]] eqn:R1; [|discriminate G9].
+    destruct (mod_remove_f rf (w_f w6) []) as [wf3 [df|]] eqn:R2; [|discriminate G10].
+    destruct (mod_remove_q rq (w_q w6) []) as [wq3 [dq|]] eqn:R3; [|discriminate G11].
+    exists wp3, g3, dp, wf3, df, wq3, dq. split; [reflexivity|]. split; [reflexivity|]. split; [reflexivity|].
+    exact (handle_mod_late burst _ _ _ cpf _ _ _ _ _ _ _ _ _ _ _ _ _ _ _ _ _ _ _ _ _ _ _ Hf H1 H2 H3 H4 H5 H6 G7 G8 R1 R2 R3).
+  Qed.
+
+  (* the markers the loops collected: the specification's, over the FAR list the session has after the Create loops *)
+  Lemma loops_marks a c s0 seid cp cf cq up uf uq w6 :
+    mod_loops a c s0 seid cp cf cq up uf uq = (w6, 0%nat) ->
+    exists fs ups,
+      parse_all (fun i => parse_far i seid (g_access (a_cfg a)) (g_core (a_cfg a)) false) cf = Some fs /\
+      parse_all (fun i => parse_far i seid (g_access (a_cfg a)) (g_core (a_cfg a)) true) uf = Some ups /\
+      w_marks w6 = spec_markers ups (view (s_fars s0) ++ fs).
+  Proof.
+    intros HL. destruct (mod_loops_done _ _ _ _ _ _ _ _ _ _ _ HL) as (w1 & w2 & w3 & w4 & w5 & H1 & H2 & H3 & H4 & H5 & H6).
+    destruct (mod_update_f_markers _ _ _ _ _ _ H5) as (ups & Pu & Hm).
+    pose proof (update_q_marks uq seid w5) as A6. rewrite H6 in A6. cbn [fst] in A6.
+    pose proof (update_p_marks up seid (c_pfds c) w3) as A4. rewrite H4 in A4. cbn [fst] in A4.
+    pose proof (create_q_marks cq seid w2) as A3. rewrite H3 in A3. cbn [fst] in A3.
+    pose proof (create_f_marks cf seid (g_access (a_cfg a)) (g_core (a_cfg a)) w1) as A2. rewrite H2 in A2. cbn [fst] in A2.
+    match type of H1 with mod_create_p _ _ _ ?w0 = _ => pose proof (create_p_marks cp seid (c_pfds c) w0) as A1 end.
+    rewrite H1 in A1. cbn [fst w_marks] in A1.
+    destruct (update_p_spec _ _ _ _ _ H4) as (C1 & _).
+    destruct (create_q_spec _ _ _ _ H3) as (qs & _ & E3).
+    destruct (create_f_spec _ _ _ _ _ _ H2) as (fs & Pf & E2).
+    destruct (create_p_spec _ _ _ _ _ H1) as (ps & pl & E1 & _).
+    exists fs, ups. split; [exact Pf|]. split; [exact Pu|].
+    rewrite A6, Hm, A4, A3, A2, A1, C1. subst w3 w2 w1. cbn [w_f app]. rewrite view_app_slice. reflexivity.
+  Qed.
+End LateResult.
